@@ -27,3 +27,20 @@ proof fn spec_getrange_examples()
     assert(spec_getrange(s, 0, -10) =~= seq![b'a']);
 }
 }
+verus! {
+/// SETRANGE key offset value: the string is zero-padded up to `offset`, then `value` overwrites / extends it
+pub open spec fn spec_setrange(s: Seq<u8>, offset: int, value: Seq<u8>) -> Seq<u8> {
+    let newlen = if offset + value.len() > s.len() { offset + value.len() } else { s.len() as int };
+    Seq::new(newlen as nat, |i: int|
+        if offset <= i < offset + value.len() { value[i - offset] }
+        else if i < s.len() { s[i] }
+        else { 0u8 })
+}
+proof fn spec_setrange_examples() {
+    let s = seq![72u8, 105u8];          // "Hi"
+    assert(spec_setrange(s, 1, seq![111u8]) =~= seq![72u8, 111u8]);                       // in place
+    assert(spec_setrange(s, 4, seq![33u8]) =~= seq![72u8, 105u8, 0u8, 0u8, 33u8]);        // zero padding
+    assert(spec_setrange(Seq::<u8>::empty(), 2, seq![65u8]) =~= seq![0u8, 0u8, 65u8]);    // missing key
+    assert(spec_setrange(s, 1, seq![97u8, 98u8]) =~= seq![72u8, 97u8, 98u8]);             // overlap + grow
+}
+}
